@@ -493,19 +493,20 @@ class Tie(Exception):
   pass
 
 
-def rebuild(node, first, last, new_leaf_text, delta):
+def rebuild(node, first, last, new_leaf_text, newlen):
   """The builder re-derived after the source edit: the patches of every Replacer before the range stay,
-  those after it move by delta, those inside it (they edited replaced text) go."""
+  those after it move by the change of length at that level, those inside it (they edited replaced text) go."""
   if node.kind == 'T':
     return ('T', new_leaf_text, node.spec[2])
   if node.kind == 'R':
     inner = node.kids[0]
     a, b = index_of(inner, first), index_of(inner, last) + 1
+    delta = newlen - (b - a)
     ps = sorted(node.spec[2])
     moved = [p for p in ps if p[1] <= a] + [(p[0] + delta, p[1] + delta, p[2], p[3]) for p in ps if p[0] >= b]
     if sorted(moved) != moved:
       raise Tie()
-    return ('R', rebuild(inner, first, last, new_leaf_text, delta), moved)
+    return ('R', rebuild(inner, first, last, new_leaf_text, newlen), moved)
   parts = []
   kids = iter(node.kids)
   for p in node.spec[1]:
@@ -513,7 +514,7 @@ def rebuild(node, first, last, new_leaf_text, delta):
       parts.append(p)
     else:
       k = next(kids)
-      parts.append(rebuild(k, first, last, new_leaf_text, delta) if has_cell(k, first) else p)
+      parts.append(rebuild(k, first, last, new_leaf_text, newlen) if has_cell(k, first) else p)
   return ('C', parts)
 
 
@@ -574,7 +575,7 @@ def judge(ref, q, o, obj=None):
       (s, e), i, j, leaf, got)
   # commutation: edit the source with the returned patch, re-derive the builders, compare the texts
   try:
-    spec2 = rebuild(ref, first, last, leaf[:i] + new + leaf[j:], len(new) - (j - i))
+    spec2 = rebuild(ref, first, last, leaf[:i] + new + leaf[j:], len(new))
   except Tie:
     return ('exact' if exact else 'endpoints') + ' (sorted() tie, commutation skipped)', None
   t2 = outcome(lambda: build(spec2).get_text())
@@ -593,12 +594,20 @@ def search(ctx):
       ctx.violation('text', 'get_text() = %r, applying the patches directly gives %r' % (rec['text'], ref.text),
                     {'spec': rec['spec'], 'query': None})
       continue
+    if shape(rec['spec']).startswith('R') and 'C' not in shape(rec['spec']):
+      # map_back_offset through a series of Replacers over a Text: a copied character maps to its source index
+      for pos, o in rec['offsets']:
+        if 0 <= pos < len(ref.cells) and ref.cells[pos][1] is not None:
+          ctx.bump('oracle offset')
+          if o != ('ok', ref.cells[pos][2]):
+            ctx.violation('offset', 'map_back_offset(%d) = %r, the character is character %d of the Text' % (
+              pos, o, ref.cells[pos][2]), {'spec': rec['spec'], 'query': None, 'offset': pos})
     for q, o in rec['queries']:
       kind, desc = judge(ref, q, o, rec['obj'])
       ctx.bump('oracle ' + kind)
       if desc:
         ctx.violation(kind, desc, {'spec': rec['spec'], 'query': list(q)})
-    if len(ctx.violations) > 400:
+    if sum(1 for v in ctx.violations if v['kind'] != 'deletion-end') > 50:
       break
 
 
@@ -613,6 +622,10 @@ def replay(ctx, w):
     return 'constructor raised %r' % (built,)
   if built[1].get_text() != ref.text:
     return 'get_text() = %r, applying the patches directly gives %r' % (built[1].get_text(), ref.text)
+  if w.get('offset') is not None:
+    o = outcome(lambda: built[1].map_back_offset(w['offset']))
+    want = ref.cells[w['offset']][2]
+    return None if o == ('ok', want) else 'map_back_offset(%d) = %r, expected %r' % (w['offset'], o, want)
   if not w.get('query'):
     return None
   q = tuple(w['query'])
